@@ -122,6 +122,7 @@ def build_session(st):
     f.connect_retry_counter = st.get('crc', 0)
     p.status = bool(st.get('peering_status', True))
     p.bgp_id = st.get('bgp_id', 0x0a000001)
+    p.peer_id = st.get('peer_id')
     P = None
     if st.get('with_protocol', True):
         from yabgp.core.protocol import BGP
